@@ -1,1 +1,4 @@
 import VProps.C11
+#print axioms V.C11.set_keysNodup
+#print axioms V.C11.applyEvents_keysNodup
+#print axioms V.C11.authAndApply_keysNodup
